@@ -81,3 +81,13 @@ addresses = st.one_of(
     st.sampled_from([0, 1, 0xFFFFFF, 0xABCDEF, 0xA00000, 0x200000, 0x27FFFF, 0x4840D6, 0xFEDCBA, 0x00000A, 0xF00000]),
     ubits(24).map(lambda a: a | 0xA0B0C0),
 )
+
+
+SPECIAL_ADDRS = (0x000000, 0xFFFFFF, 0x000001, 0x800000, 0x000FFF, 0xFFF000, 0x0000A0, 0xA00000)
+
+
+def addr24(rng):
+    """24-bit address from a random.Random: one in eight is a boundary address (000000 makes the parity field of an AP reply equal to the
+    plain CRC of the data, FFFFFF inverts it, leading / trailing zero digits)"""
+    x = rng.getrandbits(27)
+    return SPECIAL_ADDRS[x & 7] if x >> 24 == 0 else x & 0xFFFFFF
